@@ -782,7 +782,12 @@ func genC16(g *Kern, r *Rng, tier string) {
 	}
 	for b := 0; b <= 64; b++ {
 		bd := signal.BitDepth(b)
-		fmt.Fprintf(g.out, "bd %d %d %d %d\n", b, bd.MaxSignedValue(), bd.MaxUnsignedValue(), bd.MinSignedValue())
+		if p := try(func() {
+			fmt.Fprintf(g.out, "bd %d %d %d %d\n", b, bd.MaxSignedValue(), bd.MaxUnsignedValue(), bd.MinSignedValue())
+		}); p != "" {
+			// none of the bit-depth functions panics for any argument
+			fmt.Fprintf(g.out, "c16panic bounds b=%d %s\n", b, strings.ReplaceAll(p, " ", "_"))
+		}
 		g.st.lines++
 		vals := append([]uint64{}, intBoundary(I64)...)
 		for i := 0; i < n; i++ {
@@ -795,8 +800,12 @@ func genC16(g *Kern, r *Rng, tier string) {
 			}
 		}
 		for _, v := range vals {
-			fmt.Fprintf(g.out, "sv %d %d %d\n", b, int64(v), bd.SignedValue(int64(v)))
-			fmt.Fprintf(g.out, "uv %d %d %d\n", b, v, bd.UnsignedValue(v))
+			if p := try(func() {
+				fmt.Fprintf(g.out, "sv %d %d %d\n", b, int64(v), bd.SignedValue(int64(v)))
+				fmt.Fprintf(g.out, "uv %d %d %d\n", b, v, bd.UnsignedValue(v))
+			}); p != "" {
+				fmt.Fprintf(g.out, "c16panic clip b=%d v=%d %s\n", b, v, strings.ReplaceAll(p, " ", "_"))
+			}
 			g.st.lines += 2
 		}
 		g.st.cases++
@@ -807,7 +816,12 @@ func genC16(g *Kern, r *Rng, tier string) {
 		}
 		for h := 1; h <= 64; h++ {
 			for l := 1; l <= h; l++ {
-				fmt.Fprintf(g.out, "scale %s %d %d %s\n", k, h, l, cellString(scaleCall(k, h, l), k))
+				var sc uint64
+				if p := try(func() { sc = scaleCall(k, h, l) }); p != "" {
+					fmt.Fprintf(g.out, "c16panic Scale kind=%s high=%d low=%d %s\n", k, h, l, strings.ReplaceAll(p, " ", "_"))
+				} else {
+					fmt.Fprintf(g.out, "scale %s %d %d %s\n", k, h, l, cellString(sc, k))
+				}
 				g.st.lines++
 			}
 		}
